@@ -69,6 +69,6 @@ Init == \E i \in 1..Len(Programs) : InitSem(i, Cases[i].stdin, FALSE)
 Next == SemNext
 EmitInv == (EmitOn /\ Final) =>
    Emit([fam |-> "math", cls |-> Cases[pid].c, key |-> Cases[pid].key, pid |-> pid,
-         toks |-> Compact(Yield(MinParen(P))), stdin |-> Cases[pid].stdin, repl |-> repl,
+         toks |-> Compact(Yield(MinParen(P))), tree |-> P, stdin |-> Cases[pid].stdin, repl |-> repl,
          status |-> status, why |-> why, out |-> out, diags |-> diags, natlog |-> natlog, steps |-> steps])
 =============================================================================
